@@ -999,6 +999,10 @@ class Atoms:
             four_body_terms.extend(self.impropers)
             four_body_terms = np.array(four_body_terms)
 
+            # extra torsion columns exist for the dihedrals only: impropers get the CIF placeholder '.'
+            extra_torsion_fields = np.full((len(four_body_terms), len(self.extra_dihedral_labels)), ".", dtype=object)
+            extra_torsion_fields[0:len(self.dihedrals), :] = self.extra_dihedral_fields
+
             add_loop([
                     "_geom_torsion_atom_site_label_1",
                     "_geom_torsion_atom_site_label_2",
@@ -1010,7 +1014,7 @@ class Atoms:
                     [atom_labels[i] for i in four_body_terms[:,1]],
                     [atom_labels[i] for i in four_body_terms[:,2]],
                     [atom_labels[i] for i in four_body_terms[:,3]],
-                    *self.extra_dihedral_fields.T,
+                    *extra_torsion_fields.T,
                 ])
 
         f.write(cf.WriteOut(comment="# CIF file created by MOFUN using PyCifRW."))
